@@ -61,6 +61,7 @@ class LoopInterp(Interp):
         self.loop_counter = 0
         self.n_arrays = 0
         self.loop_ids = {}
+        self.loop_ranges = {}
         self.scalar_mode = True
 
     def record(self, name, idx, rhs):
@@ -170,6 +171,7 @@ class LoopInterp(Interp):
         sym = "v%d" % self.loop_ids.get(id(e), 900 + self.loop_counter)
         self.loop_counter += 1
         lo, hi = unref(rng.f["start"]), unref(rng.f["end"])
+        self.loop_ranges[sym] = (lo.v.show(), hi.v.show(), "rev" in rng.f, tuple(f[0] for f in self.frames))
         self.frames.append((sym, lo.v.show(), hi.v.show(), "rev" in rng.f))
         if not self.bind(pat, Sc(Poly.var(sym)), env):
             self.unsupported("for pattern", e)
@@ -214,7 +216,7 @@ def updates_of(F, body, args_fn, max_paths=256, roles=None):
             v = it.call_body(body, args_fn())
             return v
         finally:
-            paths.append({"ctx": ctx, "value": v, "updates": it.updates, "events": it.events})
+            paths.append({"ctx": ctx, "value": v, "updates": it.updates, "events": it.events, "loops": it.loop_ranges})
     explore(thunk, max_paths=max_paths)
     all_updates, events = [], []
     inits = {}
@@ -598,6 +600,7 @@ def jacobi(chk, F, body):
                 sort_bad.append("eigenvalues %s exchanged but eigenvector columns %s" % (sorted(cols_d), sorted(cols_v)))
     chk.ob("loops|jacobi|sort", not sort_bad and n_sw > 0, "the final sort exchanges an eigenvector column whenever (and only when) it exchanges "
            "the corresponding eigenvalue", body_loc(F, body), found=sorted(set(sort_bad))[:3] or "%d paths with consistent exchanges" % n_sw)
+    jacobi_control(chk, F, body, paths, P, Q)
     # ascending order: an exchange of d_m (m from the inner search loop) with d_k happens only under d_m < d_k
     inv = {}
     for pp in paths:
@@ -628,3 +631,122 @@ def jacobi(chk, F, body):
     chk.ob("loops|jacobi|sort-ascending", not asc_bad and n_asc > 0, "the selection sort moves an eigenvalue in front of d_k only when it is "
            "smaller (real parts compared): ascending order", body_loc(F, body), found=sorted(set(asc_bad))[:3] or "%d exchange paths under d_m < d_k" % n_asc)
     chk.count("loop-body update statements checked", 8 * max(1, len(ts)) + 7)
+
+
+def array_atoms(p):
+    return [a for a in p.atoms() if a[0] == "v" and a[2]]
+
+
+def all_atoms(p, out=None):
+    """array atoms of a form, also below function applications"""
+    out = [] if out is None else out
+    for a in p.atoms():
+        if a[0] == "v" and a[2]:
+            out.append(a)
+        elif a[0] == "f":
+            all_atoms(a[2], out)
+        elif a[0] == "u":
+            all_atoms(a[1], out)
+    return out
+
+
+def jacobi_control(chk, F, body, paths, P, Q):
+    """control conditions of the Jacobi sweeps that are necessary for the result: (1) the iteration stops early only on a quantity
+    that covers the whole strict upper triangle; (2) a rotation divides by a_pq and is only performed on paths that exclude a_pq = 0;
+    (3) an element annihilated WITHOUT a rotation was tested against BOTH diagonal elements it couples"""
+    from .common import _poly_from_key_cache as cache
+    loc = body_loc(F, body)
+    loops = {}
+    for pp in paths:
+        loops.update(pp["loops"])
+    # ---- (1) early exit
+    exits = []
+    for pp in paths:
+        sweep_updates = [u for u in pp["updates"] if len(u["frames"]) >= 3]
+        tr = pp["ctx"].trace
+        if not sweep_updates and tr and tr[0][0][0] == "pred" and tr[0][2]:
+            exits.append(tr[0])
+    cover_ok, found = False, "no early exit recognised"
+    for (key, d, b, f) in exits[:1]:
+        pz = cache.get(key[2])
+        ats = all_atoms(pz) if pz is not None else []
+        names = {a[1] for a in ats}
+        idx = {a[2] for a in ats}
+        found = d
+        if len(idx) == 1 and names <= {"A"}:
+            (r_, c_), = idx
+            lr, lc = loops.get(r_), loops.get(c_)
+            if lr and lc:
+                upper1 = lc[:2] == ("0", "n") and lr[:2] == ("0", c_) and c_ in lr[3]           # for j in 0..n, i in 0..j : a[i,j]
+                upper2 = lr[:2] == ("0", "n") and lc[:2] == ("1 + " + r_, "n") and r_ in lc[3]    # for i in 0..n, j in i+1..n
+                cover_ok = upper1 or upper2
+                found = "%s with %s in %s..%s, %s in %s..%s" % (d, r_, lr[0], lr[1], c_, lc[0], lc[1])
+    if exits:
+        chk.ob("loops|jacobi|early-exit", cover_ok, "the sweeps stop early only on a quantity accumulated over the WHOLE strict upper triangle "
+               "of the working matrix (a_ij, i < j)", loc, found=found, required="a[i,j] over j in 0..n, i in 0..j")
+    else:
+        chk.undecide("loops|jacobi|early-exit", "no early exit of the sweep loop recognised", loc)
+    # ---- (2) rotations exclude a_pq = 0
+    apq = Poly.var("A", (P, Q))
+    abs_apq = apply_fn("abs", apq).key()
+    bad2, n_rot = [], 0
+    for pp in paths:
+        rot = any(u["arr"] == "D" and len(u["frames"]) == 3 for u in pp["updates"])
+        if not rot:
+            continue
+        n_rot += 1
+        nonzero = set()   # keys of quantities known to be non-zero on this path
+        guarded = False
+        for (key, d, b, f) in pp["ctx"].trace:
+            if key[0] == "pred" and key[1] == "is_zero" and not b:
+                nonzero.add(key[2])
+                if key[2] in (apq.key(), abs_apq):
+                    guarded = True
+            if key[0] == "cmp" and key[1] == "==" and not b and {key[2], key[3]} & {apq.key(), abs_apq} and Poly.const(0).key() in (key[2], key[3]):
+                guarded = True
+            if key[0] == "cmp" and key[1] in ("<=", "<") and key[3] == abs_apq and b and (key[2] in nonzero or key[1] == "<"):
+                guarded = True      # 0 != T <= |a_pq|  (T is a norm: non-negative)
+            if key[0] == "cmp" and key[1] in ("<=", "<") and key[2] == abs_apq and not b and key[3] in nonzero:
+                guarded = True      # not(|a_pq| < T)
+        if not guarded:
+            bad2.append(path_descr(pp["ctx"])[:160])
+    chk.ob("loops|jacobi|rotation-guard", not bad2 and n_rot > 0, "a rotation (which divides by a_pq) is only performed on paths that exclude "
+           "a_pq = 0 (|a_pq| at least a non-zero threshold)", loc, found=sorted(set(bad2))[:2] or "%d rotation paths guarded" % n_rot)
+    # ---- (3) annihilation without rotation tests both coupled diagonal elements
+    dn = None
+    for pp in paths:
+        for nm, role in pp["roles"].items():
+            if role == "D":
+                dn = nm
+    bad3, n_ann, unknown = [], 0, 0
+    for pp in paths:
+        rot = any(u["arr"] == "D" and len(u["frames"]) == 3 for u in pp["updates"])
+        ann = any(u["arr"] == "A" and len(u["frames"]) == 3 and u["idx"] == (P, Q) and u["rhs"].is_zero_syntactic() for u in pp["updates"])
+        if rot or not ann or dn is None:
+            continue
+        n_ann += 1
+        tested = set()
+        for (key, d, b, f) in pp["ctx"].trace:
+            if key[0] == "cmp" and key[1] == "==" and b:
+                for x_, y_ in ((key[2], key[3]), (key[3], key[2])):
+                    px, py = cache.get(x_), cache.get(y_)
+                    if px is None or py is None:
+                        continue
+                    for who in (P, Q):
+                        ad = apply_fn("abs", Poly.var(dn, (who,)))
+                        if py.key() == ad.key():
+                            g = px - ad
+                            ga = all_atoms(g)
+                            if ga and all(a[1] == "A" and a[2] == (P, Q) for a in ga):
+                                tested.add(who)
+        if not tested:
+            unknown += 1
+        elif tested != {P, Q}:
+            bad3.append("a_pq set to zero after testing only d[%s]: %s" % (sorted(tested)[0], path_descr(pp["ctx"])[:120]))
+    if n_ann and unknown == n_ann:
+        chk.undecide("loops|jacobi|annihilation", "the negligibility test before a_pq <- 0 (without rotation) is not of the recognised form", loc)
+    else:
+        chk.ob("loops|jacobi|annihilation", not bad3, "an off-diagonal element is dropped without a rotation only when it is negligible against "
+               "BOTH diagonal elements it couples (g + |d_p| == |d_p| and g + |d_q| == |d_q|)", loc,
+               found=sorted(set(bad3))[:2] or "%d annihilation paths test both" % n_ann, nontrivial=n_ann > 0)
+    chk.count("loop-body update statements checked", 3)
